@@ -285,7 +285,7 @@ func main() {
 		if on("deep") {
 			n := 6000
 			if full {
-				n = 30000
+				n = 20000
 			}
 			streamDeep(emit, lib.NewRng(*seed^0xdee9), n)
 		}
